@@ -12,6 +12,8 @@ import (
 	"crypto/sha512"
 	"encoding/base64"
 	"fmt"
+	"net/http"
+	"net/url"
 	"regexp"
 	"strings"
 	"time"
@@ -620,6 +622,28 @@ var attackOps = []attackOp{
 		}
 		return root
 	}},
+	{"keyinfo-empty-cert-element", func(s *xswScript, root, evil *etree.Element) *etree.Element {
+		// an X509Certificate element that is there but empty, or that holds more than character data
+		xs := findByTag(root, "X509Certificate")
+		if len(xs) > 0 {
+			x := xs[s.c.rng.Intn(len(xs))]
+			switch s.c.rng.Intn(3) {
+			case 0:
+				for len(x.Child) > 0 {
+					x.RemoveChildAt(0)
+				}
+			case 1:
+				x.AddChild(etree.NewComment("c"))
+			default:
+				txt := x.Text()
+				for len(x.Child) > 0 {
+					x.RemoveChildAt(0)
+				}
+				x.CreateElement("ds:Inner").SetText(txt)
+			}
+		}
+		return root
+	}},
 	{"keyinfo-keyvalue-only", func(s *xswScript, root, evil *etree.Element) *etree.Element {
 		for _, k := range findByTag(root, "KeyInfo") {
 			for len(k.Child) > 0 {
@@ -858,11 +882,56 @@ func (s *xswScript) realSP(t trustCfg) *saml.ServiceProvider {
 	return sp
 }
 
+// metadataTrust builds a metadata trust configuration from signing key names (toks is misused as the list of names)
+func (s *xswScript) metadataTrust(names []string) trustCfg {
+	t := trustCfg{kind: "m", set: map[string]bool{}}
+	for _, k := range names {
+		kd := saml.KeyDescriptor{Use: "signing"}
+		kd.KeyInfo.X509Data.X509Certificates = []saml.X509Certificate{{Data: s.certB64(k)}}
+		t.kds = append(t.kds, kd)
+		t.set[k] = true
+	}
+	t.toks = []string{"m", fmt.Sprint(len(names))}
+	for _, k := range names {
+		t.toks = append(t.toks, encStr("signing"), "1", encStr(s.certName(k)))
+	}
+	return t
+}
+
+// xswStateful: one long-lived ServiceProvider whose IdP metadata is edited in place between messages (key roll-over, key
+// withdrawal).  Each message must be judged against the configuration at that moment.
+func (c *Ctx) xswStateful() {
+	seqs := [][][2][]string{
+		// {trusted signing keys, signer}
+		{{{"idp", "idp2"}, {"idp2"}}, {{"idp"}, {"idp2"}}, {{"idp"}, {"idp"}}, {{"idp2"}, {"idp"}}, {{"idp2"}, {"idp2"}}},
+		{{{"idp"}, {"idp"}}, {{"idp2"}, {"idp"}}, {{"idp2"}, {"idp2"}}, {{"idp", "idp2"}, {"attacker"}}, {{"attacker"}, {"attacker"}}, {{"idp"}, {"attacker"}}},
+	}
+	for _, seq := range seqs {
+		s0 := &xswScript{c: c, certTok: map[string]string{}}
+		s0.cfg = baseCfg()
+		xswShared = s0.realSP(s0.metadataTrust([]string{"idp"}))
+		for _, step := range seq {
+			xswForcedTrust = &trustCfg{toks: step[0]}
+			xswForcedSigner = step[1][0]
+			c.count("c01-stateful-step", strings.Join(step[0], "+")+" signer="+step[1][0])
+			c.xswCaseX(0, nil, c.rng.Intn(3), false)
+		}
+		xswShared, xswForcedTrust, xswForcedSigner = nil, nil, ""
+	}
+}
+
 // ---------- one case ----------
 
 func (c *Ctx) xswCase(nOps int, forcedOps []int, validBase int) {
 	c.xswCaseX(nOps, forcedOps, validBase, false)
 }
+
+// state shared between consecutive cases (xswStateful): one ServiceProvider value whose IdP metadata is edited in place
+var (
+	xswShared       *saml.ServiceProvider
+	xswForcedTrust  *trustCfg
+	xswForcedSigner string
+)
 
 func (c *Ctx) xswCaseX(nOps int, forcedOps []int, validBase int, artifact bool) {
 	s := &xswScript{c: c, blobTok: map[string]string{}, certTok: map[string]string{}, trusted: map[string]bool{}, now: ms(baseTime)}
@@ -877,6 +946,10 @@ func (c *Ctx) xswCaseX(nOps int, forcedOps []int, validBase int, artifact bool) 
 	for validBase >= 0 && (trust.kind == "m" && !trust.set["idp"]) {
 		trust = s.randTrust()
 	}
+	if xswForcedTrust != nil {
+		s.cfg = baseCfg()
+		trust = s.metadataTrust(xswForcedTrust.toks)
+	}
 
 	// honest phase
 	layout := c.pick("assertion-signed", "response-signed", "both-signed", "assertion-signed", "response-signed", "both-signed", "assertion-signed", "response-signed", "both-signed", "assertion-signed", "response-signed", "neither")
@@ -886,6 +959,9 @@ func (c *Ctx) xswCaseX(nOps int, forcedOps []int, validBase int, artifact bool) 
 		layout = []string{"assertion-signed", "response-signed", "both-signed"}[validBase%3]
 		signer = "idp"
 		encrypted = (validBase/3)%2 == 1
+	}
+	if xswForcedSigner != "" {
+		signer = xswForcedSigner
 	}
 	a := s.assertion("alice", "id-a1")
 	if layout == "assertion-signed" || layout == "both-signed" {
@@ -1011,11 +1087,24 @@ func (c *Ctx) xswCaseX(nOps int, forcedOps []int, validBase int, artifact bool) 
 	// the real code
 	setGlobals(s.cfg, s.now)
 	sp := s.realSP(trust)
+	if xswShared != nil {
+		// the same ServiceProvider value as in the previous case; only its key descriptors are replaced, in place
+		xswShared.IDPMetadata.IDPSSODescriptors[0].KeyDescriptors = trust.kds
+		sp = xswShared
+	}
+	viaForm := !artifact && c.chance(0.3)
+	c.count("c01-entry-point", map[bool]string{true: "ParseXMLArtifactResponse", false: map[bool]string{true: "ParseResponse(POST form)", false: "ParseXMLResponse"}[viaForm]}[artifact])
 	impl := safely(func() string {
 		var as *saml.Assertion
 		var err error
 		if artifact {
 			as, err = sp.ParseXMLArtifactResponse(xmlBytes, []string{"id-req1"}, "id-artreq", mustURL(s.cfg.Acs))
+		} else if viaForm {
+			// the POST-form entry point: base64 in the SAMLResponse field
+			req, _ := http.NewRequest("POST", s.cfg.Acs, nil)
+			req.PostForm = url.Values{"SAMLResponse": {base64.StdEncoding.EncodeToString(xmlBytes)}}
+			req.Form = req.PostForm
+			as, err = sp.ParseResponse(req, []string{"id-req1"})
 		} else {
 			as, err = sp.ParseXMLResponse(xmlBytes, []string{"id-req1"}, mustURL(s.cfg.Acs))
 		}
@@ -1285,6 +1374,7 @@ func (c *Ctx) genC01() {
 			}
 		}
 	}
+	c.xswStateful()
 	// the artifact binding: the same scripts inside ArtifactResponse / SOAP envelope
 	na := 300
 	if !c.quick() {
